@@ -1628,6 +1628,12 @@ func runKMountC05(c *core.Case, k int) {
 	ps := []int{1024, 4096, 512, 2048}[c.Rng.IntN(4)]
 	autoVac := []int{0, 1, 2}[c.Rng.IntN(3)]
 	smallCache := c.Rng.IntN(2) == 0
+	// case 0 is the fixed witness of the known finding (DESIGN 5.3b): free-list leaf
+	// pages are made by a DELETE and reused by the next INSERT, in every run
+	witness := k == 0
+	if witness {
+		mode, ps, autoVac, smallCache = "truncate", 1024, 2, false
+	}
 	dir := filepath.Join(c.Dir, "data")
 	rec := &crashRecorder{src: dir, base: filepath.Join(c.Dir, "imgs")}
 	n, err := drv.NewNode(drv.Config{Dir: dir, Candidate: true, KernelMount: true,
@@ -1689,7 +1695,11 @@ func runKMountC05(c *core.Case, k int) {
 		return
 	}
 	for i := 1; i <= 6; i++ {
-		if !exec(fmt.Sprintf("INSERT INTO t0 VALUES(%d,%d,randomblob(%d))", i, i, []int{100, 3000, 20000, 500}[c.Rng.IntN(4)])) {
+		size := []int{100, 3000, 20000, 500}[c.Rng.IntN(4)]
+		if witness {
+			size = []int{500, 500, 20000, 20000, 3000, 3000}[i-1]
+		}
+		if !exec(fmt.Sprintf("INSERT INTO t0 VALUES(%d,%d,randomblob(%d))", i, i, size)) {
 			return
 		}
 	}
@@ -1725,6 +1735,9 @@ func runKMountC05(c *core.Case, k int) {
 			}
 		default:
 			q = fmt.Sprintf("INSERT INTO t0 VALUES(%d,%d,randomblob(%d))", nextID, step, 10+c.Rng.IntN(900))
+		}
+		if witness {
+			q = []string{"DELETE FROM t0 WHERE id%3=0", "INSERT INTO t0 VALUES(102,1,zeroblob(6583))", "UPDATE t0 SET v=randomblob(634), k=k+1 WHERE id%2=0", "INSERT INTO t0 VALUES(103,1,zeroblob(9000))", "INSERT INTO t0 VALUES(104,1,randomblob(10))"}[step%5]
 		}
 		before := chain.pos
 		if img := chain.imageAt(before); img != nil {
